@@ -66,6 +66,22 @@ BINOPS = {
 }
 UNOPS = {"neg": operator.neg, "pos": operator.pos, "inv": operator.inv, "abs": abs, "round": round}
 PIPES = {"double": lambda v: v * 2, "tostr": lambda v: str(v), "plus1": lambda v: v + 1}
+# pipe functions taking more than the piped value: (function, how the extra argument is passed)
+PIPES_X = {"scale": (lambda v, by=1: v * by, "by"), "rev": (lambda v, reverse=False: -v if reverse else v, "reverse"),
+           "addpos": (lambda v, k: v + k, None)}
+
+
+def _pipe_call(spec, piped, pipe=None):
+    """pipe is None: the plain-Python result; else the .rx.pipe method of the piped expression"""
+    if spec[2] in PIPES:
+        return PIPES[spec[2]](piped) if pipe is None else pipe(PIPES[spec[2]])
+    fn, kwname = PIPES_X[spec[2]]
+    extra = bool(spec[3]) if spec[2] == "rev" else spec[3]
+    if kwname is None:
+        return fn(piped, extra) if pipe is None else pipe(fn, extra)
+    return fn(piped, **{kwname: extra}) if pipe is None else pipe(fn, **{kwname: extra})
+
+
 MAPS = {"double": lambda v: v * 2, "neg": lambda v: -v}
 
 # input slots: 0,1 int roots; 2 str root; 3 list root; 4,5 Parameters a,b of one object; 6 Parameter c of another; 7 bind(a+b)
@@ -176,8 +192,8 @@ def _dag(draw):
                 nodes.append((["where", draw(st.sampled_from(of("bool", "small", "int"))), ["c", 7], ["n", q_]], "int"))
         elif k == "pipe":
             a = draw(st.sampled_from(ints))
-            f = draw(st.sampled_from(["double", "plus1", "tostr"]))
-            nodes.append((["pipe", a, f], "str" if f == "tostr" else "int"))
+            f = draw(st.sampled_from(["double", "plus1", "tostr", "scale", "rev", "addpos"]))
+            nodes.append((["pipe", a, f] + ([draw(st.integers(0, 3))] if f in PIPES_X else []), "str" if f == "tostr" else "int"))
         elif k == "mat":
             a = draw(st.sampled_from(ints))
             nodes.append((["matmul", draw(st.sampled_from(["nc", "cn"])), a, draw(st.integers(0, 3))], "mat"))
@@ -496,8 +512,10 @@ def execute(case):
                     marks.add("where")
                 elif k == "pipe":
                     used[spec[1]] = used.get(spec[1], 0) + 1
-                    node = rxn[spec[1]].rx.pipe(PIPES[spec[2]])
+                    node = _pipe_call(spec, None, rxn[spec[1]].rx.pipe)
                     marks.add("pipe")
+                    if spec[2] in PIPES_X:
+                        marks.add("pipe_with_extra_argument:" + spec[2])
                 elif k == "map":
                     used[spec[1]] = used.get(spec[1], 0) + 1
                     node = rxn[spec[1]].rx.map(MAPS[spec[2]])
@@ -735,7 +753,7 @@ def _plain_all(dag, input_plain):
                 c = node(spec[1])
                 v = operand(spec[2]) if c else operand(spec[3])
             elif k == "pipe":
-                v = PIPES[spec[2]](node(spec[1]))
+                v = _pipe_call(spec, node(spec[1]))
             elif k == "map":
                 v = [MAPS[spec[2]](x) for x in node(spec[1])]
             else:
